@@ -23,8 +23,9 @@
    (what the selection of the most general retrieved rows is for).
    PROVED PART (C05_cached_evaluator): the operator of the last two theorems instantiated with the P-model's EVALUATOR of any basic
    condition - their hypotheses are proved from the evaluator's partition theorem, nothing is left abstract.
-   MISSING: which `yield_when_false` a cached row was recorded under (the theorem caches the evaluation that yields false rows
-   too), and the composition of the five call sites inside one evaluator: covered by the correspondence check (cache on vs cache off vs specification), not by a theorem. *)
+   (either mode: with or without false rows; a node has ONE mode in a query - it is fixed by its position).
+   MISSING: a node evaluated under BOTH modes during the life of its cache (a query evaluated on its own and later nested under a
+   disjunction), and the composition of the five call sites inside one evaluator: covered by the correspondence check (cache on vs cache off vs specification), not by a theorem. *)
 From EQL Require Import Base Values Syntax Spec Generated Elab EvalPure EvalPure_Facts Memo_Facts IndexedCache IndexedCache_Facts IndexedCache_Sound IndexedMemo_Facts IndexedMemo_Den CachedEval.
 
 Theorem C05_memo_transparent_partial : forall (K R : Type) (keqb : K -> K -> bool),
@@ -186,18 +187,18 @@ Qed.
    for ANY basic condition c (comparisons, memberships, expressions in condition position, and / or / not to any depth, nested
    queries) over the variables U - the cache keys -, every domain duplicate-free and non-empty; rows and lookups are encoded for
    the index by the positions of the values in their domains ([encB]: the index compares ids).  [rel]: every total assignment over
-   the domains with the truth of c; [f L]: the rows the evaluator yields, false rows included, under the incoming binding L,
-   restricted to U.  The hypotheses of C05_indexed_denotation and C05_indexed_no_assignment_twice are PROVED for it from the
+   the domains with the truth of c - all of them when the node is asked for false rows too (ywf = true), the satisfying ones
+   otherwise -; [f L]: the rows the evaluator yields in that mode under the incoming binding L, restricted to U.  The hypotheses of C05_indexed_denotation and C05_indexed_no_assignment_twice are PROVED for it from the
    evaluator's partition theorem (C02's invariant), so: for ANY history of incoming bindings (dicts over the domains that bind at
    least one cache key) the cached evaluation of c answers rows that stand for exactly the total assignments agreeing with the
    incoming binding, each with the truth value of c, none twice - and each answer is the evaluator's own rows or the single row
    "the incoming binding itself". *)
-Theorem C05_cached_evaluator : forall h dom U c,
+Theorem C05_cached_evaluator : forall h dom U c ywf,
   U <> [] -> (forall x, In x U -> NoDup (dom x)) -> (forall x, In x U -> dom x <> []) -> basic U c = true ->
   forall bs : list binding, Forall (ok_lookup dom U) bs ->
-  Forall2 (fun rows L => (forall a o, den U (rel h dom U c) rows a o <-> (In (a, o) (rel h dom U c) /\ compatible U a L = true)) /\
-                         (rows = f h dom U c L \/ exists o, rows = [(L, o)]) /\ once U rows)
-          (cached_run_f (f h dom U c) (init U) (map (encB dom) bs)) (map (encB dom) bs).
+  Forall2 (fun rows L => (forall a o, den U (rel h dom U c ywf) rows a o <-> (In (a, o) (rel h dom U c ywf) /\ compatible U a L = true)) /\
+                         (rows = f h dom U c ywf L \/ exists o, rows = [(L, o)]) /\ once U rows)
+          (cached_run_f (f h dom U c ywf) (init U) (map (encB dom) bs)) (map (encB dom) bs).
 Proof. exact cached_eval_transparent. Qed.
 Print Assumptions C05_cached_evaluator.
 
@@ -210,10 +211,10 @@ Example C05_cached_evaluator_nonvacuous :
   let sc := SOr (SCmp Eq (a (TVar 1)) (TLit (VInt 1))) (SCmp Lt (a (TVar 1)) (a (TVar 2))) in
   let bs : list binding := [[(2, VObj 1)]; [(1, VObj 0)]; [(1, VObj 0); (2, VObj 1)]; [(1, VObj 1)]; [(2, VObj 2); (1, VObj 1)]] in
   exists ic, elab sc = Some ic /\ basic [1; 2] ic = true /\ Forall (ok_lookup dom [1; 2]) bs /\
-    cached_run_f (f h dom [1; 2] ic) (init [1; 2]) (map (encB dom) bs)
+    cached_run_f (f h dom [1; 2] ic true) (init [1; 2]) (map (encB dom) bs)
       = [[([(1, 0); (2, 0)], 0); ([(1, 1); (2, 0)], 1)]; [([(1, 0)], 0)]; [([(1, 0); (2, 0)], 0)];
          [([(2, 0); (1, 1)], 1); ([(2, 1); (1, 1)], 0)]; [([(2, 1); (1, 1)], 0)]] /\
-    (let s2 := fst (cached_step_f (f h dom [1; 2] ic) (fst (cached_step_f (f h dom [1; 2] ic) (init [1; 2]) [(2, 0)])) [(1, 0)]) in
+    (let s2 := fst (cached_step_f (f h dom [1; 2] ic true) (fst (cached_step_f (f h dom [1; 2] ic true) (init [1; 2]) [(2, 0)])) [(1, 0)]) in
      fst (ic_check (impl s2) [(1, 0); (2, 0)]) = true).
 Proof.
   cbv zeta. eexists. split; [vm_compute; reflexivity|]. split; [reflexivity|]. split; [|split; vm_compute; reflexivity].
